@@ -582,7 +582,7 @@ def rule_pair(ctx, rep, rid="R-C05-pair"):
 
 
 def rule_noop(ctx, rep):
-    r = rep.rule("R-C05-noop", "no position counter of the lexer is advanced by the literal 0 on a path that consumed input", floor=3, floor_what="counter updates in lexer::tokenize")
+    r = rep.rule("R-C05-noop", "no position counter of the lexer is advanced by the literal 0 on a path that consumed input", floor=2, floor_what="counter updates in lexer::tokenize")
     lb = ctx.prog.get("ironplc_parser::lexer::tokenize")
     if not lb:
         rep.error("R-C05-noop", "lexer::tokenize not found")
